@@ -54,6 +54,20 @@ def fit_configs(tier):
                                 # five points: on_fit_start releases the Box-Cox lambda
                                 out.append(dict(part="fit", d=d, enc=enc, ard=ard, mean=mean, tt=tt, ypat=ypat,
                                                 subset=[0, 1, 2, 3, 4], full=bool(tier == "thorough")))
+    # warped kernels (one block over all coordinates / two blocks), parameter levels including the exact box bounds
+    for d in (1, 2):
+        for enc in ("logarithm", "positive"):
+            for warp in ((1,) if d == 1 else (1, 2)):
+                for mean in ("zero", "scalar"):
+                    for n in ((4,) if tier == "quick" else (3, 4)):
+                        out.append(dict(part="fit", d=d, enc=enc, ard=0, mean=mean, tt="id", ypat=(d + warp) % 2,
+                                        subset=list(range(n)), full=False, warp=warp, bounds=True))
+    # ... and the exact bounds for the plain models
+    for d in (1, 2):
+        for enc in ("logarithm", "positive"):
+            for tt in ("id", "bc-free"):
+                out.append(dict(part="fit", d=d, enc=enc, ard=int(d == 2), mean="scalar", tt=tt, ypat=0, subset=[0, 1, 2, 3],
+                                full=False, bounds=True))
     return out
 
 
@@ -128,8 +142,15 @@ def check_fit_point(prob, x, cov, viols, only_coord=None):
             y[ix] += t
             return prob.value_alone(y)
 
+        lo_b, hi_b = prob.box.get(ix, (None, None))
+        side = +1.0 if (lo_b is not None and x[ix] == lo_b) else (-1.0 if (hi_b is not None and x[ix] == hi_b) else 0.0)
         try:
-            gfd, err = num.fd_scalar(f, H0_FIT, NTAB_FIT)
+            if side:
+                # on a box bound: differentiate from inside the box only
+                gfd, err = num.fd_one_sided(f, H0_FIT, side, NTAB_FIT)
+                cov.outcome("fit:on-bound:one-sided")
+            else:
+                gfd, err = num.fd_scalar(f, H0_FIT, NTAB_FIT)
         except Exception as e:
             viols.append(Violation(PROP, _fit_key("exception:" + type(e).__name__, cfg),
                                    f"criterion raised {type(e).__name__}: {e} near x={rep['x']} coord {label}", rep))
